@@ -554,8 +554,122 @@ func corr(args []string) {
 	fmt.Printf("{\"cases\":%d,\"distribution\":{%s}}\n", total, strings.Join(parts, ","))
 }
 
+// witness replays the `_refuted` / `_needed` witnesses of coq/Props/C01Valid.v on the real code.
+//
+//	blank-only mandatory field: BatchHeader.CompanyName = " " (and Addenda02.TerminalCity = " "): the file
+//	  validates, the Writer writes it, the default Reader rejects the text          -> C01 failure (known finding)
+//	unclosed batch: a batch control line removed from a written file: Read (default) succeeds       -> sample
+//	file arithmetic: the entry/addenda count of the file control changed: Read succeeds, Validate fails -> sample
 func witness(args []string) {
 	fs := flag.NewFlagSet("witness", flag.ExitOnError)
+	out := fs.String("out", "", "output directory")
+	n := fs.Int("n", 6, "files per witness class")
 	fs.Parse(args)
-	fmt.Println("{}")
+	w := hx.Create(filepath.Join(*out, "witness.jsonl"))
+	r := rng.FromEnv(9127)
+	evals, nontrivial := 0, 0
+	dist := map[string]int{}
+	var samples []string
+	sample := func(format string, a ...any) {
+		if len(samples) < 6 {
+			samples = append(samples, fmt.Sprintf(format, a...))
+		}
+	}
+	jq := func(s string) string { return strconv.Quote(s) }
+	blank := func(sec, what string, edit func(f *ach.File) bool) {
+		for i := 0; i < *n; i++ {
+			f := gen.FileOfSEC(r, sec, gen.Opts{MinBatches: 1, MaxBatches: 2, Addenda: true})
+			if !edit(f) {
+				dist[what+":not-applicable"]++
+				continue
+			}
+			evals++
+			if !retabulate(f) || arith.Safe(f.Validate) != nil {
+				dist[what+":not-valid"]++
+				continue
+			}
+			text, err := gen.Text(f, false)
+			if err != nil {
+				dist[what+":writer-error"]++
+				continue
+			}
+			nontrivial++
+			obs := observe(text)
+			dist[what+":"+strings.SplitN(obs, " ", 2)[0]]++
+			if strings.HasPrefix(obs, "ERR") {
+				w.Printf("{\"kind\":\"fail\",\"key\":\"roundtrip:valid:blank-only-mandatory-field:read-error\",\"what\":%s,\"case\":{\"mode\":\"text\",\"field\":%s,\"text\":%s}}\n",
+					jq("a file that validates (a mandatory field holds a single blank) is written by the Writer and rejected by the default Reader: "+obs), jq(what), jq(hx.Enc(text)))
+			}
+		}
+	}
+	blank(ach.PPD, "BatchHeader.CompanyName", func(f *ach.File) bool {
+		if len(f.Batches) == 0 {
+			return false
+		}
+		f.Batches[0].GetHeader().CompanyName = " "
+		return true
+	})
+	blank(ach.POS, "Addenda02.TerminalCity", func(f *ach.File) bool {
+		for _, b := range f.Batches {
+			for _, e := range b.GetEntries() {
+				if e.Addenda02 != nil {
+					e.Addenda02.TerminalCity = " "
+					return true
+				}
+			}
+		}
+		return false
+	})
+	for i := 0; i < *n; i++ {
+		f := gen.File(r, gen.Opts{MinBatches: 2, MaxBatches: 3, ForwardOnly: true})
+		text, err := gen.Text(f, false)
+		if err != nil {
+			continue
+		}
+		ls := splitLines(text)
+		// an unclosed batch
+		if cs := indicesOf(ls, '8'); len(cs) > 0 {
+			evals++
+			nontrivial++
+			t := strings.Join(remove(ls, cs[0]), "\n") + "\n"
+			obs := observe(t)
+			tagw := strings.SplitN(obs, " ", 3)
+			dist["unclosed-batch:"+tagw[0]]++
+			if tagw[0] == "LINGER" {
+				sample("first batch control removed: Read (default validation) returns the file, File.Validate() rule %s", tagw[1])
+			}
+		}
+		// file control entry/addenda count + 1 (columns 13..21)
+		if nine := indicesOf(ls, '9'); len(nine) > 0 {
+			evals++
+			nontrivial++
+			l := ls[nine[0]]
+			c, _ := strconv.Atoi(l[13:21])
+			m := append([]string(nil), ls...)
+			m[nine[0]] = l[:13] + fmt.Sprintf("%08d", c+1) + l[21:]
+			obs := observe(strings.Join(m, "\n") + "\n")
+			tagw := strings.SplitN(obs, " ", 3)
+			dist["file-count+1:"+tagw[0]]++
+			if tagw[0] == "OK" {
+				sample("file control entry/addenda count raised by one: Read (default validation) returns the file, File.Validate() rule %s", tagw[1])
+			}
+		}
+	}
+	var keys []string
+	for k := range dist {
+		keys = append(keys, k)
+	}
+	sort.Strings(keys)
+	var parts, ss []string
+	for _, k := range keys {
+		parts = append(parts, fmt.Sprintf("%q:%d", k, dist[k]))
+	}
+	for _, s := range samples {
+		ss = append(ss, fmt.Sprintf("{\"note\":%s}", jq(s)))
+	}
+	w.Printf("{\"kind\":\"summary\",\"evaluations\":%d,\"distinct_nontrivial\":%d,\"rule\":%s,\"distribution\":{%s},\"samples\":[%s]}\n",
+		evals, nontrivial, jq("witnesses of Props/C01Valid.v on the real code: a file counts when it validated and was written (blank-only fields) or was written and edited (unclosed batch, file count)"),
+		strings.Join(parts, ","), strings.Join(ss, ","))
+	w.Close()
+	fmt.Printf("{\"witness_evaluations\":%d}\n", evals)
 }
